@@ -2,7 +2,7 @@
 import dns
 
 SLICE = "HISTB (histories of store operations and queries executed with real sleeps on a half-second grid, batched concurrently)"
-RULE = ("seeded histories over a small set of records and TTLs {0, 1, 2, large}: add-authoritative, add-cached(ttl, cache-flush), "
+RULE = ("seeded histories over a small set of records (including siblings: same owner, type and class) and TTLs {0, 1, 2, large}, plus directed sibling / cache-flush histories: add-authoritative, add-cached(ttl, cache-flush), "
         "re-add, remove, clear, time advances; mutations happen on even half-second ticks and queries on odd ticks, so no comparison "
         "sits within ~500 ms of an expiry instant; every query uses the authoritative-only (with / without subdomains), cached-only and "
         "combined filters. Oracle: an independent python history spec (last operation on the record decides; cached records are "
@@ -19,6 +19,8 @@ RECS = [
     {"name": [b"a"] + SVC, "class": 1, "ttl": 0, "cf": False, "rdata": ("T", "A", [("I", 0x0A000001)])},
     {"name": [b"a"] + SVC, "class": 1, "ttl": 0, "cf": False, "rdata": ("T", "SRV", [("I", 0), ("I", 0), ("I", 80), ("N", [b"a"] + SVC)])},
     {"name": [b"b"] + SVC, "class": 1, "ttl": 0, "cf": False, "rdata": ("T", "A", [("I", 0x0A000002)])},
+    # a sibling of the second record: same owner, type and class, other data
+    {"name": [b"a"] + SVC, "class": 1, "ttl": 0, "cf": False, "rdata": ("T", "A", [("I", 0x0A000003)])},
 ]
 INFO = {}
 
@@ -65,10 +67,30 @@ def history_toks(steps):
 QUERIES = [(SVC, 0), (SVC, 1), (SVC, 2), (SVC, 3), ([b"a"] + SVC, 0), ([b"a"] + SVC, 2)]
 
 
+def directed_histories():
+    """sibling records (same owner / type / class) received at different times, one of them with the cache-flush bit"""
+    a1, a3, srv = RECS[1], RECS[4], RECS[2]
+    hs = []
+    for first_ttl in (2, 1000):
+        for gap in (0, 1, 2):
+            for flush_ttl in (0, 1, 1000):
+                for other in (a3, srv):
+                    steps = [[("AC", dict(a1, ttl=first_ttl, cf=False))]] + [[] for _ in range(gap)]
+                    steps += [[("AC", dict(other, ttl=flush_ttl, cf=True))], [], []]
+                    hs.append(steps)
+    return hs
+
+
 def cases(rng, tier):
     out = []
     nlines = 12 if tier == "quick" else 48
     per = 40
+    dh = directed_histories()
+    for k in range(0, len(dh), per):
+        hs = dh[k:k + per]
+        line = "HISTB " + " ;; ".join(" ".join(history_toks(h)) for h in hs)
+        INFO[line] = hs
+        out.append(line)
     for _ in range(nlines):
         hs = [gen_history(rng) for _ in range(per)]
         line = "HISTB " + " ;; ".join(" ".join(history_toks(h)) for h in hs)
